@@ -2,9 +2,9 @@
 //! opening interface.
 
 use super::common::*;
-use crate::engine::{Obs, Property, Tier, Verdict};
+use crate::engine::{Extra, Obs, Property, Tier, Verdict};
 use crate::gen::{self, Msg, Session};
-use crate::refmodel::hpke_ref::Suite;
+use crate::refmodel::hpke_ref::{AeadId, Suite};
 use crate::suite::{DynReceiver, DynSuite, Fail};
 use crate::util::{hex_short, mix, Bytes};
 use hpke::HpkeError;
@@ -364,7 +364,7 @@ impl Property for P {
         "C06"
     }
     fn rule(&self) -> String {
-        "Generated: (sealing suite, mode, session, 1..=3 messages, start position 0 / byte-carry boundary / 2^64-1-d through the hook, optionally 50..400 extra empty-plaintext messages whose every proper prefix and 1-byte extension is tried); swept additionally: the families at positions 2^64-1, 2^64-2, 2^64-3, 255, 2^32, 2^56-1 and 2500 empty messages per AEAD; per message a variant family: every single-bit flip of ct||tag and of aad (exhaustive for <=96 bytes, all tag bits + 256 sampled positions otherwise), every truncation length, extensions by 1..=17 bytes (zeros / pattern / tag copy / prepended), aad emptied/shortened/extended, tag, aad and whole ciphertext substituted from the other messages of the same context; for the detached interfaces also tags with 1..=17 bytes appended/prepended and tags truncated to 0..Nt-1 bytes. \
+        "Long run: 200 000 (thorough 2^24) CONSECUTIVE modified / out-of-sequence deliveries of six kinds on one receiver per AEAD through the public API, every one of which must be rejected. Generated: (sealing suite, mode, session, 1..=3 messages, start position 0 / byte-carry boundary / 2^64-1-d through the hook, optionally 50..400 extra empty-plaintext messages whose every proper prefix and 1-byte extension is tried); swept additionally: the families at positions 2^64-1, 2^64-2, 2^64-3, 255, 2^32, 2^56-1 and 2500 empty messages per AEAD; per message a variant family: every single-bit flip of ct||tag and of aad (exhaustive for <=96 bytes, all tag bits + 256 sampled positions otherwise), every truncation length, extensions by 1..=17 bytes (zeros / pattern / tag copy / prepended), aad emptied/shortened/extended, tag, aad and whole ciphertext substituted from the other messages of the same context; for the detached interfaces also tags with 1..=17 bytes appended/prepended and tags truncated to 0..Nt-1 bytes. \
          Each variant is opened at the right position through open and open_in_place_detached (one receiver repositioned through the hook, every 16th variant on a fresh receiver advanced by honest opens) and, for the first message, through single_shot_open and single_shot_open_in_place_detached. \
          Oracle: every attempt returns Err(OpenError); an in-place failure must not leave the plaintext (>=16 bytes) in the buffer; positive control per message. \
          Non-trivial: a case whose families contain aad flips and a cross-message substitution; evaluations counts cases, inner_oracle_comparisons counts open attempts."
@@ -440,6 +440,54 @@ impl Property for P {
             edge.push(Case { sess: gen::cell_session(s, 0, 67), msgs: vec![Msg { pt: Bytes(vec![]), aad: Bytes(vec![]) }], variant_seed: 67, start: 0, empty_messages: 2500 });
         }
         vec![("kem_x_aead_x_mode_cells".into(), cells), ("last_positions_and_many_empty_messages".into(), edge)]
+    }
+    fn extra(&self, tier: Tier, _seed: u64, x: &mut Extra) {
+        // many consecutive rejected deliveries on ONE receiver (public API only): a per-context count
+        // of failures is state no case-sized history reaches
+        let n: u64 = tier.pick(200_000, 1 << 24);
+        let results: Vec<(AeadId, LongRun)> = std::thread::scope(|sc| {
+            let hs: Vec<_> = AeadId::SEALING.into_iter().map(|a| (a, sc.spawn(move || long_rejection_run(a, n)))).collect();
+            hs.into_iter().map(|(a, h)| (a, h.join().unwrap_or_else(|_| LongRun::Infra("long run thread died".into())))).collect()
+        });
+        let mut runs = serde_json::Map::new();
+        for (a, r) in results {
+            let fail = match r {
+                LongRun::Fine(k) => {
+                    x.evaluations += k;
+                    runs.insert(a.name().to_string(), serde_json::json!({"consecutive_rejected_deliveries_on_one_receiver": k, "hooks_used": false}));
+                    None
+                }
+                LongRun::Infra(m) => {
+                    x.infra_error = Some(m);
+                    None
+                }
+                LongRun::Accepted(m) => Some(("C06/long-run/accepted-modified", m)),
+                // other outcomes belong to C05 (position / error kind) and C13 (panic)
+                LongRun::ChangedError(_) | LongRun::NextRejected(_) | LongRun::Panicked(_) => None,
+            };
+            if let Some((sig, msg)) = fail {
+                if x.failure.is_none() {
+                    x.failure = Some((sig.to_string(), msg, serde_json::json!({"long_rejection_run": a.name(), "n": n})));
+                }
+            }
+        }
+        x.notes.insert("long_rejection_runs".into(), serde_json::Value::Object(runs));
+    }
+    fn replay_extra(&self, payload: &serde_json::Value, x: &mut Extra) {
+        if payload.get("long_rejection_run").is_none() {
+            return;
+        }
+        let n = payload["n"].as_u64().unwrap_or(200_000);
+        let a = AeadId::SEALING.into_iter().find(|a| Some(a.name()) == payload["long_rejection_run"].as_str()).unwrap_or(AeadId::ChaCha);
+        let fail = match long_rejection_run(a, n) {
+            LongRun::Fine(_) | LongRun::Infra(_) => None,
+            LongRun::Accepted(m) => Some(("C06/long-run/accepted-modified", m)),
+                // other outcomes belong to C05 (position / error kind) and C13 (panic)
+                LongRun::ChangedError(_) | LongRun::NextRejected(_) | LongRun::Panicked(_) => None,
+        };
+        if let Some((sig, msg)) = fail {
+            x.failure = Some((sig.to_string(), msg, payload.clone()));
+        }
     }
     fn check(&self, case: &Case, obs: &mut Obs) -> Verdict {
         check(case, obs)
